@@ -1,4 +1,4 @@
-\* exhaustive plan enumeration (no VIEW): accepted create, then every sequence of 2 calls with every fault position
+\* exhaustive plan enumeration (no VIEW): accepted create in every kind x spelling, then every read step (get / list / position) with every store read fault
 SPECIFICATION Spec
 CHECK_DEADLOCK FALSE
 INVARIANTS PlanOut
@@ -6,12 +6,12 @@ CONSTANTS
   Kinds = {"token", "userpass", "kafka", "kafka_off"}
   CreateFaults = {0}
   ReadFaults = {0, 1, 90}
-  PauseFaults = {0, 1, 2}
-  ResumeFaults = {0, 1, 2, 3, 99}
-  DeleteFaults = {0, 1, 2, 3}
-  RestartFaults = {0, 2, 3, 4, 99}
-  WithDupCreate = TRUE
-  MaxOps = 3
+  PauseFaults = {}
+  ResumeFaults = {}
+  DeleteFaults = {}
+  RestartFaults = {}
+  WithDupCreate = FALSE
+  MaxOps = 2
   MaskOnCreateFail = TRUE
   MaskOnConnectFail = TRUE
   MaskSasl = TRUE
